@@ -61,7 +61,9 @@ def new_points(rng, ax, ints=False):
 
 class C18(Prop):
     id = "C18"
-    theorems = ["interpAt_node", "interpAt_left", "interpAt_right", "interpAt_between", "interpAxis_axes"]
+    theorems = ["interpAt_node", "interpAt_left", "interpAt_right", "interpAt_between", "interpAxis_axes", "sortsNodes_exists", "SortsNodes.unique", "interpAxis_spec", "InterpolatesAlong.covers", "InterpolatesAlong.node", "InterpolatesAlong.left_fill",
+                "InterpolatesAlong.right_fill", "InterpolatesAlong.between", "InterpolatesAlong.between_bounds", "interpAt_between_bounds", "interpAxis_order_independent", "interpAxis_empty_axis",
+                "interpAxis_nonnumeric", "interpAxis_bad_axis", "interpAxis_successive", "DSV.interpAxisDs_spec", "DSV.interpAxisDs_interpolates", "interpAxis_order_dependent_with_duplicates"]
     rule = ("float/int arrays of rank 1-4 with numeric axis labels stored increasing / decreasing / shuffled (power-of-two "
             "gaps and dyadic values so that every float operation is exact), every numeric axis by name, position, negative "
             "position or left out (first axis), new coordinate vectors (sorted or not, ndarray / list / Axis, float or int, "
